@@ -7,17 +7,21 @@ import OLP.Shell.LemmasB
 namespace OLP.Props.C07
 open OLP OLP.KV OLP.Shell
 
+set_option linter.unusedSectionVars false
+
 variable {K V C E T H D : Type} [DecidableEq K] [DecidableEq V] [DecidableEq C] [DecidableEq H]
 variable (cfg : Cfg K V) (hs : Handlers K V C E T H D) (e : E)
 
 /-- a mempool check never touches the tree, the deliver overlays, the index or the height -/
 theorem checkTx_keeps_store (n : Node K V C T H D) (tx : T) :
     let n' := (checkTx cfg hs e n tx).1
-    n'.tree = n.tree ∧ n'.dlv = n.dlv ∧ n'.idx = n.idx ∧ n'.height = n.height := sorry
+    n'.tree = n.tree ∧ n'.dlv = n.dlv ∧ n'.idx = n.idx ∧ n'.height = n.height := by
+  have h := checkTx_frame cfg hs e n tx
+  exact ⟨h.1, h.2.1, h.2.2.1, h.2.2.2.1⟩
 
 /-- … and, when mempool-path programs write no volatile cell, nothing consensus depends on -/
 theorem checkTx_keeps_consensus (hnv : CheckNoVset hs) (n : Node K V C T H D) (tx : T) :
-    (checkTx cfg hs e n tx).1.consensus = n.consensus := sorry
+    (checkTx cfg hs e n tx).1.consensus = n.consensus := checkTx_consensus cfg hs e hnv n tx
 
 /-- THE isolation theorem: if every block hook re-aims its stores at the deliver state and the
     mempool path writes no volatile cell, then for every call sequence, deleting the CheckTx calls
@@ -27,11 +31,12 @@ theorem checktx_isolation (ha : AllAimed hs) (hnv : CheckNoVset hs) (r : Run K V
     let a := runCalls cfg hs e r calls
     let b := runCalls cfg hs e r (calls.filter (fun c => !c.isCheck))
     a.1.node.consensus = b.1.node.consensus ∧ a.1.pending = b.1.pending ∧
-    a.2.filter (fun o => !o.isChecked) = b.2 := sorry
+    a.2.filter (fun o => !o.isChecked) = b.2 :=
+  runCalls_isolation cfg hs e ha hnv calls r r rfl rfl
 
 /-- Commit recreates the check state from the committed tree -/
 theorem commit_recreates_check (n : Node K V C T H D) :
-    (commit cfg hs n).chk = Ov.fresh hs.gasLimit := sorry
+    (commit cfg hs n).chk = Ov.fresh hs.gasLimit := rfl
 
 /-! ## Both premises are needed: the shapes of S14 and S13 in the model -/
 
@@ -53,7 +58,9 @@ def unaimedH : Handlers Nat Nat Nat Unit Nat Nat Nat :=
 theorem unaimed_hook_breaks_isolation :
     let plain := runCalls exCfg unaimedH () ⟨exN, []⟩ [.begin, .deliver 5, .endb, .commit [5]]
     let mixed := runCalls exCfg unaimedH () ⟨exN, []⟩ [.check 7, .begin, .deliver 5, .endb, .commit [5]]
-    plain.2 ≠ mixed.2.filter (fun o => !o.isChecked) := sorry
+    plain.2 ≠ mixed.2.filter (fun o => !o.isChecked) := by
+  dsimp only
+  decide
 
 /-- S13-shaped: ProcessCheck writes a volatile cell that the consensus path reads -/
 def vsetH : Handlers Nat Nat Nat Unit Nat Nat Nat :=
@@ -64,6 +71,8 @@ def vsetH : Handlers Nat Nat Nat Unit Nat Nat Nat :=
 theorem check_vset_breaks_isolation :
     let plain := runCalls exCfg vsetH () ⟨exN, []⟩ [.begin, .deliver 5, .endb, .commit [5]]
     let mixed := runCalls exCfg vsetH () ⟨exN, []⟩ [.begin, .check 7, .deliver 5, .endb, .commit [5]]
-    plain.2 ≠ mixed.2.filter (fun o => !o.isChecked) := sorry
+    plain.2 ≠ mixed.2.filter (fun o => !o.isChecked) := by
+  dsimp only
+  decide
 
 end OLP.Props.C07
